@@ -23,6 +23,7 @@ from scales.sink import ClientMessageSink, ClientMessageSinkStack, SinkProviderB
 from scales.varz import VarzReceiver
 
 PORT0 = 9000
+MAIN = gevent.getcurrent()
 HOST = 'h'
 
 
@@ -91,6 +92,10 @@ class Channel(ClientMessageSink):
       self.outstanding += 1
     if self._state == ChannelState.Closed and self.run.sync_fail:
       sink_stack.AsyncProcessResponseMessage(MethodReturnMessage(error=Exception('channel closed')))
+    elif self.run.service_time is not None and req is not None:
+      st = self.run.service_time * (1.0 + 0.1 * (req.id % 3))
+      g = gevent.Greenlet(sink_stack.AsyncProcessResponseMessage, MethodReturnMessage('ok'))
+      g.start_later(st)
 
   def AsyncProcessResponse(self, sink_stack, context, stream, msg):
     raise HarnessError('channel got a response')
@@ -169,6 +174,8 @@ class Terminal(ClientMessageSink):
 
   def AsyncProcessResponse(self, sink_stack, context, stream, msg):
     context.completions.append((loop.now(), msg))
+    if context.done is not None:
+      context.done.set()
 
 
 class Req(object):
@@ -180,6 +187,7 @@ class Req(object):
     self.stack = None
     self.msg = None
     self.accounted = False     # model decremented the channel's outstanding
+    self.done = None
 
 
 class LBRun(object):
@@ -197,6 +205,10 @@ class LBRun(object):
     self.selection = None
     self.nports = self.cfg.get('nports', 9)
     self.max_inversions = 0
+    self.pending_violation = None
+    self.service_time = None
+    self.steady = None
+    self.events = []
 
   # --- construction
   def build(self, world):
@@ -223,12 +235,184 @@ class LBRun(object):
       self.selection = [(n.endpoint, n.channel, n.channel.state) for n in lb._heap[1:]]
       return orig_on_get(node)
     lb._OnGet = on_get
+    if self.kind == 'aperture' and self.prop == 'C06':
+      self.instrument_aperture()
     self.open_ar = lb.Open()
+
+  # --- C06: observe every aperture adjustment
+  def gauge(self, name):
+    d = VarzReceiver.VARZ_DATA.get('scales.loadbalancer.Aperture.' + name)
+    if not d:
+      return None
+    vals = [v for k, v in d.items() if k.service == 'svc']
+    return vals[-1] if len(vals) == 1 else None
+
+  def instrument_aperture(self):
+    lb = self.lb
+    a = self.cfg['aperture']
+    orig_adjust = lb._AdjustAperture
+    orig_contract = lb._ContractAperture
+    ctx = {'adjust': 0}
+
+    def healthy():
+      return len([n for n in lb._heap[1:] if n.channel.is_open])
+
+    def adjust(amount):
+      s0 = lb._size
+      idle0 = bool(lb._idle_endpoints)
+      pending0 = bool(lb._pending_endpoints)
+      healthy0 = healthy()
+      total0 = lb._total
+      ctx['adjust'] += 1
+      try:
+        r = orig_adjust(amount)
+      finally:
+        ctx['adjust'] -= 1
+      s1 = lb._size
+      L = self.gauge('load_average')
+      self.n_adjust += 1
+      if s0 > 0 and L is not None:
+        if L >= a['max_load'] and idle0 and s0 < a['max_size']:
+          want = s0 + 1
+          self.flags.add('load_expand')
+        elif L <= a['min_load'] and s0 > a['min_size'] and not pending0 and healthy0 > a['min_size']:
+          want = s0 - 1
+          self.flags.add('load_contract')
+        else:
+          want = s0
+        if s1 != want:
+          self.viol('C06', 'direction', 'adjust(%+d): load average %.4f (band %r..%r), size %d -> %d, expected %d (idle=%r pending=%r healthy=%d min_size=%d max_size=%d)' % (
+              amount, L, a['min_load'], a['max_load'], s0, s1, want, idle0, pending0, healthy0, a['min_size'], a['max_size']))
+        if s1 > s0 and s1 > a['max_size']:
+          self.viol('C06', 'beyond-max-size', 'load-driven growth %d -> %d beyond max_size %d' % (s0, s1, a['max_size']))
+        st = self.steady
+        if st is not None and loop.now() - st['start'] >= 30.0:
+          avg = L * s0
+          lvl = st['level']
+          st['checked'] += 1
+          if not (lvl - 1 - 0.1 <= avg <= lvl + 1 + 0.1):
+            self.viol('C06', 'tracking', '%d requests outstanding for %.1f s, but smoothed load %.3f (load average %.4f x %d active)' % (
+                lvl, loop.now() - st['start'], avg, L, s0))
+      if self.steady is not None:
+        self.steady['sizes'].append((loop.now(), s1))
+        if s1 != s0:
+          self.steady['changes'].append((loop.now(), s0, s1))
+      return r
+
+    def contract(force=False):
+      s0 = lb._size
+      members = len(lb._servers)
+      r = orig_contract(force)
+      s1 = lb._size
+      if s1 < s0:
+        if force:
+          self.flags.add('jitter_contract')
+        if s1 < min(a['min_size'], members):
+          self.viol('C06', 'below-min-size', 'contraction %d -> %d with min_size %d and %d members' % (s0, s1, a['min_size'], members))
+      return r
+
+    lb._AdjustAperture = adjust
+    lb._ContractAperture = contract
+    self.n_adjust = 0
+
+  def check_gauges(self):
+    lb = self.lb
+    act, idl = self.gauge('active'), self.gauge('idle')
+    if act is not None and act != len(lb._heap) - 1:
+      self.viol('C06', 'gauge-active', 'gauge active=%r, heap holds %d members' % (act, len(lb._heap) - 1))
+    if idl is not None and idl != len(lb._idle_endpoints):
+      self.viol('C06', 'gauge-idle', 'gauge idle=%r, idle set has %d members' % (idl, len(lb._idle_endpoints)))
+    if lb._size != len(lb._heap) - 1:
+      self.viol('C06', 'size-mismatch', 'size %d but heap holds %d' % (lb._size, len(lb._heap) - 1))
+
+  def op_steady(self, c, rate, duration):
+    from gevent.event import Event
+    lb = self.lb
+    a = self.cfg['aperture']
+    for ch in self.live_channels().values():
+      if not ch.close_steps:
+        ch._state = ChannelState.Open
+    base = len(self.outstanding_reqs())
+    self.service_time = 1.0 / rate
+    stop = [False]
+
+    def caller():
+      while not stop[0]:
+        r = self.dispatch_raw()
+        if r.completions:
+          gevent.sleep(0.001)
+        else:
+          r.done = Event()
+          r.done.wait()
+
+    self.steady = {'level': base + c, 'start': loop.now(), 'sizes': [], 'changes': [], 'checked': 0}
+    callers = [gevent.spawn(caller) for _ in range(c)]
+    advance(duration)
+    st = self.steady
+    self.steady = None      # the wind-down below is not steady traffic
+    stop[0] = True
+    self.raise_pending()
+    self.flags.add('steady')
+    # settling
+    lvl = st['level']
+    members = len(lb._servers)
+    cap = min(a['max_size'], members)
+
+    def stable(sz, m):
+      exp = (lvl / float(sz) >= a['max_load'] * (1 - m)) and sz < cap
+      con = ((lvl - 1) / float(sz) <= a['min_load'] * (1 + m)) and sz > a['min_size']
+      return not exp and not con
+    sizes_possible = range(min(a['min_size'], members), max(cap, min(a['min_size'], members)) + 1)
+    robust = [z for z in sizes_possible if z > 0 and stable(z, 0.08)]
+    tail = [z for (t, z) in st['sizes'] if t >= st['start'] + duration - 10.0]
+    if robust and duration >= 40.0 and tail and members > 0:
+      self.flags.add('settling_checked')
+      late = [c for c in st['changes'] if c[0] >= st['start'] + duration - 10.0]
+      if late:
+        self.viol('C06', 'not-settled', 'level %d held for %.0f s, stable sizes %r exist, but load still changes the active size in the last 10 s: %r' % (
+            lvl, duration, robust, [(round(t - st['start'], 2), x, y) for t, x, y in late[:6]]))
+      zf = tail[-1]
+      if a.get('jitter_min', 0):
+        zf = None     # a jitter round may be in progress: the momentary size says nothing
+      # the smoothed load reads between lvl-1 and lvl: only a size that must move for every value in that range is wrong
+      must_expand = zf and ((lvl - 1) / float(zf) >= a['max_load'] * 1.08) and zf < cap
+      must_contract = zf and (lvl / float(zf) <= a['min_load'] * 0.92) and zf > a['min_size']
+      if must_expand or must_contract:
+        self.viol('C06', 'settled-outside-band', 'level %d held for %.0f s: final size %d is neither inside the band (%r..%r) nor pinned (stable sizes %r)' % (
+            lvl, duration, zf, a['min_load'], a['max_load'], robust))
+    stop[0] = True
+    advance(2.5 * self.service_time + 0.01)
+    self.service_time = None
+    self.steady = None
+    for g in callers:
+      g.kill(block=False)
+    settle()
+
+  def dispatch_raw(self):
+    rid = len(self.reqs)
+    r = Req(rid, self.step)
+    self.reqs.append(r)
+    st = ClientMessageSinkStack()
+    st.Push(Terminal(), r)
+    msg = MethodCallMessage(None, 'm', (rid,), {})
+    msg.properties['__vf_req'] = r
+    msg.properties[MessageProperties.Endpoint] = None
+    r.stack, r.msg = st, msg
+    self.lb.AsyncProcessRequest(st, msg, None, {})
+    return r
 
   # --- helpers
   def viol(self, prop, key, detail):
     if prop == self.prop:
-      raise Violation(prop, key, '%s (step %d: %r)' % (detail, self.step, self.cur_op))
+      v = Violation(prop, key, '%s (step %d: %r)' % (detail, self.step, self.cur_op))
+      if gevent.getcurrent() is not MAIN and self.pending_violation is None:
+        # raised inside a balancer greenlet: hand it to the harness greenlet
+        self.pending_violation = v
+      raise v
+
+  def raise_pending(self):
+    if self.pending_violation is not None:
+      raise self.pending_violation
 
   def model_members(self):
     return set(self.ssp.members)
@@ -413,6 +597,7 @@ class LBRun(object):
 
   # --- invariants
   def after_step(self):
+    self.raise_pending()
     self.scan_log()
     self.account_completions()
     lb = self.lb
@@ -432,6 +617,8 @@ class LBRun(object):
       self.check_removal(live, members)
     if self.prop in ('C05', 'C06') and self.lb_init_done() and self.ssp.q.empty():
       self.check_membership(members)
+    if self.prop == 'C06' and self.kind == 'aperture':
+      self.check_gauges()
 
   def check_conservation(self):
     lb = self.lb
@@ -530,6 +717,8 @@ class LBRun(object):
           self.note_removals(before_live)
       elif k == 'advance':
         advance(op[1] / 1000.0)
+      elif k == 'steady':
+        self.op_steady(op[1], op[2], op[3])
       else:
         raise HarnessError('unknown op %r' % (op,))
       settle()
